@@ -276,6 +276,8 @@ def cases(tier):
     cs.append(Case("read24", h_read, {"bits": 24}))
     for w in (8, 17, 20, 25, 32):
         cs.append(Case("read%d" % w, h_read_other, {"bits": w}))
+    for fb, b in ((20, 24), (12, 16), (24, 16), (16, 24), (24, 20), (16, 12), (17, 24), (9, 16), (32, 24)):
+        cs.append(Case("read%d-after-%d" % (b, fb), h_read_after, {"first_bits": fb, "bits": b}))
     cs.append(Case("inst-read", h_inst_read, {}))
     for k in range(len(INST) + len(UNINST) + 1):
         cs.append(Case("inst-write-%d" % k, h_inst_write, {"kind": k}))
@@ -288,6 +290,17 @@ def cases(tier):
         for j in range(11):
             cs.append(Case("eq-inst-%d-%d" % (i, j), h_eq, {"i": i, "j": j, "which": "inst"}))
     return cs
+
+
+def h_read_after(ctx, first_bits, bits):
+    """History: a frame of another width is decoded first (all of its bits symbolic), then the frame under
+    test.  What a byte meant in a frame of one size must not be remembered for a frame of another size."""
+    x0 = ctx.fresh("x0", 0, (1 << first_bits) - 1)
+    call(A.from_frame, F.ForwardFrame(first_bits, x0))
+    call(A.instance_from_frame, F.ForwardFrame(first_bits, x0))
+    if bits in (16, 24):
+        return h_read(ctx, bits)
+    return h_read_other(ctx, bits)
 
 
 def h_read_other(ctx, bits):
